@@ -442,8 +442,16 @@ func (p *untypedParamBinder) tryUnmarshaler(target reflect.Value, defaultValue i
 	// When a type implements encoding.TextUnmarshaler we'll use that instead of reflecting some more
 	if reflect.PtrTo(target.Type()).Implements(textUnmarshalType) {
 		if defaultValue != nil && len(data) == 0 {
-			target.Set(reflect.ValueOf(defaultValue))
-			return true, nil
+			if dv := reflect.ValueOf(defaultValue); dv.Type().AssignableTo(target.Type()) {
+				target.Set(dv)
+				return true, nil
+			}
+			// the default comes from the spec document as a plain string
+			str, isString := defaultValue.(string)
+			if !isString {
+				return true, fmt.Errorf("invalid default value %v", defaultValue)
+			}
+			data = str
 		}
 		value := reflect.New(target.Type())
 		if err := value.Interface().(encoding.TextUnmarshaler).UnmarshalText([]byte(data)); err != nil {
@@ -482,8 +490,19 @@ func (p *untypedParamBinder) setSliceFieldValue(target reflect.Value, defaultVal
 		return nil
 	}
 	if sz == 0 {
-		target.Set(defVal)
-		return nil
+		if defVal.Type().AssignableTo(target.Type()) {
+			target.Set(defVal)
+			return nil
+		}
+		if defVal.Kind() != reflect.Slice {
+			return errors.InvalidType(p.Name, p.parameter.In, typeArray, defaultValue)
+		}
+		// the default comes from the spec document as []interface{}: bind its items like request values
+		sz = defVal.Len()
+		data = make([]string, sz)
+		for i := range data {
+			data[i] = fmt.Sprint(defVal.Index(i).Interface())
+		}
 	}
 
 	value := reflect.MakeSlice(reflect.SliceOf(target.Type().Elem()), sz, sz)
